@@ -85,10 +85,15 @@ def make_classes():
                 CTX['log'].append(['apply', pid, eng.front[('p%d' % pid,)]['time'], eng.global_time])
                 return current + update
             self._upd = logging_updater
+            # the constant parts of the update are cached objects handed out again on every call (as
+            # processes with static updates do); 'twin' is a second port wired to the same store as 'shared'
+            self._cached_shared = {'count': 1}
+            self._cached_twin = {'count2': 1}
 
         def ports_schema(self):
             sch = {
                 'shared': {'count': {'_default': 0, '_emit': True}},
+                'twin': {'count2': {'_default': 0, '_emit': False}},
                 'own': {'elapsed': {'_default': 0.0, '_emit': True, '_updater': self._upd}}}
             if self.parameters.get('flip'):
                 sch = dict(reversed(list(sch.items())))      # same ports, other listing order
@@ -124,7 +129,7 @@ def make_classes():
             CTX['log'].append(['invoke', pid, timestep, eng.global_time,
                                eng.front[('p%d' % pid,)]['time'],
                                states['shared']['count'], states['own']['elapsed']])
-            return {'shared': {'count': 1}, 'own': {'elapsed': timestep}}
+            return {'shared': self._cached_shared, 'twin': self._cached_twin, 'own': {'elapsed': timestep}}
 
     class RecEmitter(Emitter):
         def emit(self, data):
@@ -163,7 +168,7 @@ def run_impl(c, timeout=3):
     topo_order = list(reversed(order)) if flip else order
     topology = {}
     for i in topo_order:
-        ports = {'shared': ('shared',), 'own': ('own%d' % i,)}
+        ports = {'shared': ('shared',), 'twin': ('shared',), 'own': ('own%d' % i,)}
         topology['p%d' % i] = dict(reversed(list(ports.items()))) if flip else ports
     groups = []
     CTX['log'] = []
@@ -200,6 +205,11 @@ def run_impl(c, timeout=3):
                     fr.append([int(path[0][1:]), adv['time'], real])
                 CTX['log'].append(['after', eng.global_time, fr])
                 groups.append(CTX['log'])
+            if n:
+                sh = eng.state.get_value()['shared']
+                groups[-1].append(['final', sh['count'], sh['count2'],
+                                   all(p._cached_shared == {'count': 1} and p._cached_twin == {'count2': 1}
+                                       for p in processes.values())])
     except Hang:
         status = 'hang'
     except Exception as e:
@@ -302,7 +312,7 @@ def _render(c, ob, variant='vfixed'):
             for e in g:
                 if e[0] == 'check_complete_failed':
                     raise ValueError('check_complete failed')
-        exp = '(Some %s)' % clist([clist([r_event(e) for e in g]) for g in ob['groups']])
+        exp = '(Some %s)' % clist([clist([r_event(e) for e in g if e[0] != 'final']) for g in ob['groups']])
     return '(SRun %s %s %s %s %s %s %s)' % (variant, specs, ps, cZ(tk(c['t0'])), ee, calls, exp)
 
 
@@ -347,6 +357,15 @@ def oracle_all(c, ob):
         for e in g:
             if e[0] == 'check_complete_failed':
                 out.append(('C02', 'after update() a process is not at the global time: ' + e[1], 'check-complete'))
+                continue
+            if e[0] == 'final':
+                _, cnt, cnt2, intact = e
+                if not intact:
+                    out.append(('C01', 'the update objects a process returned were modified by the engine '
+                                '(they are handed out again at the next call)', 'update-object-mutated'))
+                if cnt2 != cnt:
+                    out.append(('C01', 'two ports of one process wired to the same store: %d updates arrived through '
+                                'one and %d through the other' % (cnt, cnt2), 'applied-twice'))
                 continue
             now = e[3] if e[0] in ('invoke', 'apply') else e[1]
             # ---- C03: the clock never decreases and never passes the end of the call
